@@ -170,7 +170,37 @@ def _run(case):
     return M, _Count.n
 
 
-def _obs(M, cnt, variant):
+def _mol_pairs(case, M):
+    """mcs_mol: WHICH isomorphism maps a component onto its partner is VF2's choice (judged by the oracle); compared with the
+    model: which (pruned) components of G1 are matched with which node sets of G2."""
+    ms = M.get_mappings("G1_to_G2")
+    m = ms[0] if ms else {}
+    lab, adj = _tables(case["g1"], case)
+    par = {n: n for n in lab}
+
+    def f(x):
+        while par[x] != x:
+            x = par[x]
+        return x
+    for (u, v) in adj:
+        par[f(u)] = f(v)
+    comps = {}
+    for n in lab:
+        comps.setdefault(f(n), []).append(n)
+    out = []
+    for comp in comps.values():
+        ks = [n for n in comp if n in m]
+        if ks:
+            out.append([S(sorted(int(k) for k in ks)), S(sorted(int(m[k]) for k in ks))])
+    stray = [k for k in m if k not in lab]
+    if stray:
+        out.append([S(sorted(int(k) for k in stray)), S(sorted(int(m[k]) for k in stray))])
+    return S(out)
+
+
+def _obs(M, cnt, variant, case=None):
+    if case is not None and case.get("mode") == "mcs_mol":
+        return [M._last_pattern_is_G1, M.last_size, cnt, _mol_pairs(case, M)]
     if variant == "matcher":
         return [M._last_pattern_is_G1, M.last_size, cnt, _dicts(M.get_mappings()), _dicts(M.get_mappings("G1_to_G2")),
                 _dicts(M.get_mappings("G2_to_G1"))]
@@ -187,7 +217,7 @@ def impl(case):
         # which representative survives is VF2's choice; compared: orientation, size, subsets tried and the SET of host node sets
         # (one survivor per host set: a duplicate host set would show up twice here and break the comparison with the model)
         return [M._last_pattern_is_G1, M.last_size, cnt, S([sorted(int(v) for v in m.values()) for m in M.get_mappings()])]
-    return _obs(M, cnt, case["variant"])
+    return _obs(M, cnt, case["variant"], case)
 
 
 # ------------------------------------------------------------------ histories on shared objects (round 3)
@@ -327,7 +357,7 @@ def _run_history(case):
             cnt = _Count.n
             views = _views(M, variant)
             ok = _derived_ok(M, variant, st.get("reads", ["G1_to_G2", "G2_to_G1"]))
-            out.append((_obs(M, cnt, variant), ok, views))
+            out.append((_obs(M, cnt, variant, sub), ok, views))
             continue
         for side in ("g1", "g2"):
             src = st.get("src_" + side)
@@ -356,14 +386,14 @@ def _run_history(case):
         cnt = _Count.n
         views = _views(M, variant)
         ok = _derived_ok(M, variant, st.get("reads", ["G1_to_G2", "G2_to_G1"]))
-        out.append((_obs(M, cnt, variant), ok, views))
+        out.append((_obs(M, cnt, variant, sub), ok, views))
     return out
 
 
 # ------------------------------------------------------------------ model encoder
 
 def _in_domain(case):
-    if case.get("mode") not in (None, "component") or (case.get("mode") and case["variant"] != "matcher"):
+    if case.get("mode") not in (None, "component", "mcs_mol") or (case.get("mode") and case["variant"] != "matcher"):
         return False
     if case.get("prune_auto") and (case.get("mode") or case["variant"] != "matcher"):
         return False
@@ -419,7 +449,7 @@ def _nx_prune_order(g, case):
     G.subgraph(keep).copy().  networkx (FilterAtlas.__iter__) iterates that view in the order of the Python set `set(keep)`
     when 2*len(keep) < len(G) and in insertion order otherwise; this external order is an INPUT of the model: the graph is
     handed to the model with its kept nodes listed in that order (everything else about the case is unchanged)."""
-    if case.get("mode") != "component" or not case.get("prune_wc"):
+    if case.get("mode") not in ("component", "mcs_mol") or not case.get("prune_wc"):
         return g
     keep = [n for n, a in g["nodes"] if a.get(_ek(case)) != _wc(case)]
     if 2 * len(keep) >= len(g["nodes"]):
@@ -440,6 +470,8 @@ def coq_case(case):
     I = _intern(case)
     defs = clist([cN(I(d)) for d in case["node_defaults"]])
     g1, g2 = _coq_graph(_nx_prune_order(case["g1"], case), case, I), _coq_graph(_nx_prune_order(case["g2"], case), case, I)
+    if case["variant"] == "matcher" and case.get("mode") == "mcs_mol":
+        return "run_mcs_mol %s %s %s %s %s" % (defs, cbool(case.get("prune_wc", False)), cN(I(_wc(case))), g1, g2)
     if case["variant"] == "matcher":
         return "%s %s %s %s %s %s %s" % ("run_component" if case.get("mode") == "component" else
                                          "run_matcher_auto" if case.get("prune_auto") else "run_matcher", defs, cbool(case.get("prune_wc", False)), cN(I(_wc(case))), g1, g2,
@@ -578,6 +610,8 @@ def _msizes(case, obs):
     """Sizes of the returned mappings, from the observable (prune_automorphisms: sizes of the host node sets)."""
     if case.get("prune_auto") and not case.get("mode") and case["variant"] == "matcher":
         return [len(h) for h in obs[3]["__set__"]]
+    if case.get("mode") == "mcs_mol":
+        return [sum(len(p[0]["__set__"]) for p in obs[3]["__set__"])]
     ms = obs[3] if case["variant"] == "matcher" else obs[2]
     return [len(m["__set__"]) for m in ms]
 
@@ -1161,6 +1195,51 @@ def _component_cases(rng, n):
     return out
 
 
+def _mcs_mol_cases(rng, n):
+    """find_common_subgraph(mcs_mol=True): graphs made of several small molecules; the second graph holds relabelled copies of
+    some of them (so whole components match), near-misses of the same size (one order / one element changed) placed BEFORE the
+    true partner, duplicates (two equal components compete for one partner), and unrelated components."""
+    out = []
+    for t in range(n):
+        mols = [_rand(rng, rng.choice([1, 2, 2, 3, 3, 4]), 0.6, connected=True, elements=("C", "C", "O", "N"))
+                for _ in range(rng.randint(1, 4))]
+        if rng.random() < 0.4:
+            mols.append(_gcopy(rng.choice(mols)))
+
+        def assemble(parts):
+            g, nxt = {"nodes": [], "edges": []}, 1
+            for p_ in parts:
+                ids = [x for x, _ in p_["nodes"]]
+                q = G.relabel(p_, {i: nxt + j for j, i in enumerate(ids)})
+                g["nodes"] += q["nodes"]
+                g["edges"] += q["edges"]
+                nxt += len(ids)
+            return G.shuffle_insertion(G.random_relabel(g, rng, 0, 40), rng)
+        second = []
+        for m_ in mols:
+            z = rng.random()
+            if z < 0.55:
+                second.append(_gcopy(m_))
+            elif z < 0.8:
+                second.append(_edit(rng, m_) if rng.random() < 0.5 else _gcopy(m_))
+                second.insert(0, _edit(rng, m_))
+        for _ in range(rng.randint(0, 2)):
+            second.append(_rand(rng, rng.randint(1, 3), 0.6, connected=True))
+        rng.shuffle(second)
+        g1, g2 = _gcopy(assemble(mols)), _gcopy(assemble(second))
+        kw = {}
+        if rng.random() < 0.25:
+            for g in (g1, g2):
+                for nd_ in g["nodes"]:
+                    if rng.random() < rng.choice([0.15, 0.6]):
+                        nd_[1]["element"] = "*"
+            kw["prune_wc"] = True
+        if rng.random() < 0.5:
+            g1, g2 = g2, g1
+        out.append(_mk("mcs-mol", g1, g2, rng.random() < 0.5, mode="mcs_mol", implicit=rng.random() < 0.3, **kw))
+    return out
+
+
 def _falsy_order(rng, n):
     """A graph and a relabelled copy; bonds of order 0 / 0.0 (falsy) on one side are a MISSING order on the other side for some
     bonds (must not be mapped onto each other in the Matcher copy, where only missing matches missing), equal 0 for others."""
@@ -1263,5 +1342,6 @@ def gen_cases(tier, rng):
     cases += _falsy_order(rng, 50 if tier == "quick" else 400)
     cases += _component_cases(rng, 150 if tier == "quick" else 1500)
     cases += _rc_side_histories(rng, 80 if tier == "quick" else 600)
+    cases += _mcs_mol_cases(rng, 150 if tier == "quick" else 1500)
     cases += _sizes(rng, 24 if tier == "quick" else 150)
     return cases
